@@ -289,6 +289,10 @@ def run_property(modname, tier, seed, jobs=None, only=None, verbose=False):
 
     results = run_cases([c.id for c in cs], False)
     cl = _classify(results, by_id, modname, prop, tier)
+    # an engine limit that only says "this needs real enum members" is decided by the same second run
+    for r in results:
+        if r["status"] == "inconclusive" and "symbolic enum member" in (r.get("error") or ""):
+            cl["nonrepro"].add(r["case"])
     if cl["nonrepro"]:
         # a counterexample that does not reproduce is usually the enum stand-in (a symbolic integer where the library
         # would hold an enum member: `is` tests and type checks see the difference).  Decide those cases again with
